@@ -399,6 +399,13 @@ func (e *C08Script) Run(ctx *core.Ctx, idx int) {
 					w.tracef("user: delete pod %s (removed at once)", p.Name)
 				}
 			}
+			if (idx/7)%2 == 1 {
+				// ... and the controller process restarts before the next sync: the pause is recorded in the replica
+				// set's condition, not in the memory of the process that decided it
+				w.Ctl.Rebuild()
+				ctx.Count("C08.script-controller-restarted-while-auto-paused")
+				w.tracef("*** controller process restarted while the canary is auto-paused")
+			}
 			nB := func() int {
 				k := 0
 				for _, p := range w.DaemonPods("ns1", "foo") {
